@@ -396,6 +396,12 @@ func (o *c11Oracle) AfterRun(w *World, op *Op, res *RunResult) {
 			w.Fail("issuer-after-subject:write-log", "%s written before its issuer %s", e.PemPath(), ie.PemPath())
 			return
 		}
+		if ie != nil && pos[e.PemPath()] > 0 && planned[ie.EffAlias()] > 0 && pos[ie.PemPath()] == 0 {
+			// (a run that failed part-way) the issuer was to be regenerated in this run and was not, yet
+			// the entity it signs was: it cannot have been signed by its issuer's new certificate
+			w.Fail("subject-written-though-planned-issuer-was-not", "%s was written although its issuer %s, planned in the same run, was not (run: stage=%s err=%s)", e.PemPath(), ie.PemPath(), res.Stage, res.Err)
+			return
+		}
 	}
 	if len(res.Plan) > 0 {
 		w.Hit("decide-run-had-work")
@@ -506,7 +512,7 @@ func genC11BaseMode(r *Rng, farFuture bool) (*Plan, *HistGen) {
 	}
 	// per-entity state operations
 	kinds := []string{"strip-key", "strip-cert", "key-to-csr", "del-art", "strip-hash", "tamper-hash", "bad-hash",
-		"edit-subject", "edit-subject", "touch-cfg", "touch-art", "edit-profile", "nop", "nop"}
+		"edit-subject", "edit-subject", "touch-cfg", "touch-art", "edit-profile", "nop", "nop", "sigalg-mismatch"}
 	n := r.Range(0, 2+len(g.Ents))
 	for i := 0; i < n; i++ {
 		e := Pick(r, g.Ents)
@@ -524,6 +530,25 @@ func genC11BaseMode(r *Rng, farFuture bool) (*Plan, *HistGen) {
 			ne := editSubject(r, e)
 			g.setEnt(ne)
 			g.P.Add(Op{K: "put-ent", Spec: ne, Label: "edit-subject"})
+		case "sigalg-mismatch":
+			// an entity whose generation fails when it is its turn (the algorithm does not fit the signing
+			// key): whatever it signs must then stay as it is - its issuer was not regenerated
+			if farFuture || g.P.Meta["sigalg-mismatch"] != "" {
+				break
+			}
+			signerFam := keyFamily(e.KeyAlg)
+			if e.Issuer != "" {
+				signerFam = keyFamily(g.byAlias(e.Issuer).KeyAlg)
+			}
+			ne := e.Clone()
+			if signerFam == "rsa" {
+				ne.SigAlg = Pick(r, ecSigAlgs)
+			} else {
+				ne.SigAlg = Pick(r, rsaSigAlgs)
+			}
+			g.setEnt(ne)
+			g.P.Add(Op{K: "put-ent", Spec: ne, Label: "sigalg-mismatch"})
+			g.P.Meta["sigalg-mismatch"] = ne.ID
 		case "touch-cfg":
 			g.P.Add(Op{K: "touch", Ent: e.ID})
 		case "touch-art":
@@ -563,7 +588,7 @@ func exploreC11(t *testing.T, seed uint64, idx int, tier string, sink *Sink) {
 			return
 		}
 	}
-	if idx%16 == 0 {
+	if idx%16 == 0 && base.Meta["sigalg-mismatch"] == "" {
 		pl := base.Clone()
 		pl.Add(Op{K: "run", Flags: 0, Tags: []string{"decide"}})
 		laneP_C11(t, pl, nil, sink)
